@@ -72,6 +72,8 @@ def run_episode(spec, uid="E"):
                     if o["kind"] == "regex" and o.get("from_glob"):
                         from harness.globs import to_regex
                         pats = [to_regex(p) for p in pats]
+                    if o["kind"] == "regex" and o.get("escape"):      # literal text used as a regular expression
+                        pats = [re.escape(p) for p in pats]
                     o["patterns"] = pats
                     return o
 
